@@ -243,6 +243,8 @@ def main(pid="C09"):
                     for st in order:
                         addr, want = st["addr"], st["out"]
                         peer = real_addr(addr["fam"], addr["bits"], k, off[addr["fam"]], bg)
+                        if addr["fam"] == 6 and rnd.random() < 0.15:
+                            peer += rnd.choice(["%eth0", "%1", "%lo"])       # a zone id names an interface, not another address
                         distinct.add((repr(sorted(pol.items(), key=repr)), repr(addr)))
                         got_cfg = decide(comp_cfg, peer)
                         n += 1
@@ -364,6 +366,29 @@ def main(pid="C09"):
                     continue
                 rep.violation({"layer": "component", "entry": "uninterpretable"},
                               "%s list entry %r cannot be interpreted but construction succeeded" % (which, entry), None)
+        # ... and through the configuration layer: TOML -> ServerConfig -> get_access_control_config -> the running server
+        for entry in ["", " ", "\t", "not-an-ip", "10.0.0.0/33", "::1/129", "10.0.0.0/8 ", " 10.0.0.1"]:
+            for which in ("allow", "deny"):
+                for other in (None, ["203.0.113.0/24"]):
+                    rep.add("evaluations")
+                    lst = [entry] if other is None else other + [entry]
+                    started = None
+                    try:
+                        cfg = load_config(True, lst if which == "allow" else None, lst if which == "deny" else None, True, root)
+                        acc = cfg.get_access_control_config()
+                        if acc is None:
+                            started = "no access control at all"
+                        else:
+                            AccessControl(acc)
+                            started = "access control built from %r" % (lst,)
+                    except ValueError:
+                        continue
+                    padded_only = entry != entry.strip() and entry.strip() not in ("",)
+                    if padded_only:
+                        continue          # surrounding blanks around a valid entry: grey (tolerating them does not weaken the policy)
+                    rep.violation({"layer": "config", "entry": "uninterpretable"},
+                                  "%s_list = %r in the configuration file cannot be interpreted (entry %r), yet the server would start with %s" % (
+                                      which, lst, entry, started), None)
         rep.set("rule", "TLC-enumerated (policy, address) cases x embeddings into real IPv4/IPv6 at 2-3 bit offsets; "
                 "distinct = distinct abstract (policy, address) pairs; grey (allow_list = []) cases are run but not judged")
         rep.set("exhaustive", not thorough or len(cases) == len([s for s in states if s["out"] != "pending"]))
